@@ -628,7 +628,14 @@ def attach(pid, correspondence, search, replay_fn):
         return r
 
     def srch(ctx, prior):
-        r = search(ctx, prior)
+        # (a search of the property's own that crashes on the changed code must not hide what this family finds)
+        try:
+            r = search(ctx, prior)
+        except Exception:
+            r = run(ctx, pid)
+            if not r.oracle_failures:
+                raise
+            return r
         r.merge(run(ctx, pid))
         return r
 
